@@ -31,6 +31,9 @@ class Invoke:
     src: int                      # service table index; 0 = not registered
     ondone: list = field(default_factory=list)
     onerror: list = field(default_factory=list)
+    dur: int = 1                  # ms the Recorder service takes (async engine)
+    ok: bool = True               # returns (True) or raises (False)
+    val: int = 0
 
 
 @dataclass
@@ -176,6 +179,8 @@ class AM:
             return {"type": "xstate.assign", "params": BadParams(a[1])}
         if k == "emit":
             return {"type": "xstate.emit", "params": {"event": {"type": "EM%d" % a[1]}}}
+        if k == "slow":
+            return "s%d" % a[1]
         raise ValueError(a)
 
     def trans_json(self, t, gspell=0, cond=False):
@@ -232,7 +237,7 @@ class AM:
         if n.after:
             d["after"] = {delay: [self.trans_json(t) for t in ts] for delay, ts in n.after}
         if n.invoke:
-            d["invoke"] = [dict(id=inv.iid, src="svc%d" % inv.src,
+            d["invoke"] = [dict(id=inv.iid, src=("svc%d_%s" % (inv.src, inv.iid.replace(".", "_")) if inv.src else "svc_missing"),
                                 onDone=[self.trans_json(t) for t in inv.ondone],
                                 onError=[self.trans_json(t) for t in inv.onerror]) for inv in n.invoke]
         return d
@@ -285,6 +290,8 @@ class AM:
             return "ABadBuiltin %d" % a[1]
         if k == "emit":
             return "AEmit %d" % a[1]
+        if k == "slow":
+            return "ASlow %d %d" % (a[1], a[2])
         raise ValueError(a)
 
     def trans_coq(self, t):
@@ -302,8 +309,9 @@ class AM:
         optz = lambda x: "None" if x is None else "(Some (%d)%%Z)" % x
         on = cl("(%s, %s)" % (cq(k), cl(self.trans_coq(t) for t in ts)) for k, ts in n.on)
         after = cl("(%d, %s)" % (int(d), cl(self.trans_coq(t) for t in ts)) for d, ts in n.after)
-        inv = cl("(mkI %s %d %s %s)" % (cq(v.iid), v.src, cl(self.trans_coq(t) for t in v.ondone),
-                                        cl(self.trans_coq(t) for t in v.onerror)) for v in n.invoke)
+        inv = cl("(mkI %s %d %s %s %d %s (%d)%%Z)" % (cq(v.iid), v.src, cl(self.trans_coq(t) for t in v.ondone),
+                                                      cl(self.trans_coq(t) for t in v.onerror), v.dur,
+                                                      "true" if v.ok else "false", v.val) for v in n.invoke)
         ondone = "None" if n.ondone is None else "(Some %s)" % self.trans_coq(n.ondone)
         return "(mkN %s %s %s %s %s %d %s %s %s %s %s %s %s %s)" % (
             cq(self.sid(i)), opt(n.parent), kind, cl(str(c) for c in n.children), opt(n.initial), self.depth(i),
@@ -328,8 +336,10 @@ class BadParams:
 def op_coq(op):
     """an operation: one event tuple (send) or ('burst', [events]) (send_events)"""
     if op[0] == "burst":
-        return cl(ev_coq(e) for e in op[1])
-    return cl([ev_coq(op)])
+        return "(0, %s)" % cl(ev_coq(e) for e in op[1])
+    if op[0] == "at":
+        return "(%d, %s)" % (op[1], cl(ev_coq(e) for e in op[2]))
+    return "(0, %s)" % cl([ev_coq(op)])
 
 
 def ev_coq(ev):
